@@ -6,6 +6,7 @@
    the Karatsuba/Toom-3 switch (192/193 words; thorough tier). *)
 EXTENDS IntPatterns, Json
 CONSTANTS Classes,      \* set of word counts
+          BigClasses,   \* word counts around the Karatsuba / Toom-3 switch (192/193), used for products only
           K,            \* variants per (op, class pair)
           Seed
 
@@ -15,10 +16,11 @@ TypePairs == << <<"U", "U">>, <<"I", "I">>, <<"U", "I">>, <<"I", "U">>, <<"I", "
 VARIABLES phase, op, ca, cb, k
 vars == <<phase, op, ca, cb, k>>
 
-Init == phase = "pick" /\ op \in Ops \cup {"sqr", "cubic", "pow"} /\ ca \in Classes /\ cb = 0 /\ k = 0
+Init == phase = "pick" /\ op \in Ops \cup {"sqr", "cubic", "pow"} /\ ca \in Classes \cup BigClasses /\ cb = 0 /\ k = 0
+             /\ (ca \in BigClasses => op \in {"mul", "sqr"})
 Pick == /\ phase = "pick"
         /\ phase' = "done"
-        /\ cb' \in (IF op \in Ops THEN Classes ELSE {ca})
+        /\ cb' \in (IF op \notin Ops THEN {ca} ELSE IF ca \in BigClasses THEN BigClasses ELSE Classes)
         /\ k' \in 1..K
         /\ UNCHANGED <<op, ca>>
 Next == Pick
